@@ -37,7 +37,7 @@ func init() {
 		Name:  "GEOJSON-TYPES",
 		IR:    "ast",
 		Props: []string{"C32"},
-		Floor: 6, // Point MultiPoint LineString MultiLineString Polygon MultiPolygon
+		Floor: 7, // Point MultiPoint LineString MultiLineString Polygon MultiPolygon + the importer's coverage
 		Doc: "every GeoJSON geometry kind is named by the emit table (Geometry{Type: \"X\"} literals), the decode table ((*Geometry).UnmarshalJSON) and the top-level dispatch (geojson.Unmarshal), " +
 			"with the same coordinates type where it is built and where it is decoded",
 		Run: runGeoJSONTypes,
@@ -305,10 +305,13 @@ func runGeoJSONTypes(c *Ctx) []Obligation {
 					dropped = append(dropped, D[k][0].typ)
 				}
 			}
+			imp := Obligation{Key: "ingest.(*AddFeatures).fillFromFeature#imports", Pos: c.Position(fd.Pos()), Status: OK,
+				Detail: "the importer's type switch has an arm for every geometry kind the decoder produces: one feature is added per GeoJSON feature"}
 			if len(dropped) > 0 {
-				out = append(out, Obligation{Key: "ingest.(*AddFeatures).fillFromFeature#dropped", Pos: c.Position(fd.Pos()), Status: Info,
-					Detail: fmt.Sprintf("the importer's type switch has no arm for %s: features with these geometries are skipped without an error (observed, not decided)", strings.Join(dropped, ", "))})
+				imp.Status = Violation
+				imp.Detail = fmt.Sprintf("the importer's type switch has no arm for %s: a GeoJSON feature with such a geometry is skipped without an error, so the import does not add one feature per GeoJSON feature", strings.Join(dropped, ", "))
 			}
+			out = append(out, imp)
 		}
 	}
 	return out
